@@ -156,6 +156,39 @@ theorem src_history_mode (w : Writer) (ops : List Op) :
     (srcWRun (wsview w) ops).1.2 = lastMode w.san ops := by
   rw [src_wrun_gen]; exact run_mode ops w
 
+/-- the bytes an accepted history must have appended: the declared size of every accepted call -/
+def declaredSum : List Op → List (Except PyErr Unit) → Nat
+  | op :: ops, .ok () :: outs => declared op + declaredSum ops outs
+  | _ :: ops, .error _ :: outs => declaredSum ops outs
+  | _, _ => 0
+
+theorem runOutW_length (ops : List Op) : ∀ w : Writer,
+    ((runOutW w ops).1).data.length = w.data.length + declaredSum ops (runOutW w ops).2 := by
+  induction ops with
+  | nil => intro w; simp [runOutW, declaredSum]
+  | cons op ops ih =>
+    intro w
+    have ih' := ih (w.step op).1
+    cases hres : (w.step op).2 with
+    | ok u =>
+      cases u
+      obtain ⟨bs, hd, hl⟩ := appends_declared w op hres
+      simp only [runOutW, hres, declaredSum] at ih' ⊢
+      rw [ih', hd, List.length_append, hl]; omega
+    | error e =>
+      have hsame : (w.step op).1 = w := atomic w op e hres
+      simp only [runOutW, hres, declaredSum] at ih' ⊢
+      rw [ih', hsame]
+
+/-- **size accounting over whole histories of the translated writer**: the buffer grows by exactly the declared size of
+    every accepted call, and by nothing for a rejected one -/
+theorem src_history_length (w : Writer) (ops : List Op) :
+    (srcWRun (wsview w) ops).1.1.length = w.data.length + declaredSum ops (srcWRun (wsview w) ops).2 := by
+  rw [src_wrun_gen]
+  have h := runOutW_length ops w
+  rw [runOutW_fst] at h
+  simp [wsview, ofBytes, h]
+
 /-- writes only (stops at the first rejected one): the translated counterpart of `RW.writeAll` -/
 def srcWriteAll : WS → List Op → Py.M WS
   | st, [] => .ok st
